@@ -71,7 +71,7 @@ func genDirEntries(r *rng.R, cfg *scfg) []dent {
 	for i := 0; i < n; i++ {
 		u := pool[r.Intn(len(pool))]
 		var e dent
-		switch k := r.Intn(24); {
+		switch k := r.Intn(25); {
 		case k < 7:
 			e = dent{name: u + ".user", content: rec(r.Pick(0, 0, 0, 1, 2, 3, 4))}
 		case k < 14:
@@ -84,8 +84,9 @@ func genDirEntries(r *rng.R, cfg *scfg) []dent {
 			e = dent{name: ".tmp", dir: true}
 		case k == 17:
 			e = dent{name: ".tmp", content: rec(r.Pick(0, 2))}
-		case k == 18: // invalid user names with valid extensions
-			e = dent{name: []string{"_x", ".hidden", "-a", "@b", "", "a b", "a,b", "ü", "bo\u017fs", "\u212aarl", "\u0661", "\uff41b"}[r.Intn(12)] + []string{".user", ".admin"}[r.Intn(2)], content: rec(0)}
+		case k == 18 || k == 24: // invalid user names with valid extensions
+			e = dent{name: []string{"_x", ".hidden", "-a", "@b", "", "a b", "a,b", "ü", "bo\u017fs", "\u212aarl", "\u0661", "\uff41b",
+				"evil\nroot", "root\n", "\nroot", "a\r\nb", "a\tb", "root\nevil", "a\vb", "a\x7fb"}[r.Intn(20)] + []string{".user", ".admin"}[r.Intn(2)], content: rec(0)}
 		case k == 19:
 			e = dent{name: u + ".user.admin", content: rec(0)}
 		case k == 20:
